@@ -44,9 +44,11 @@ func TestC10Enum(t *testing.T) {
 	sh, nsh := Shard()
 	idx := 0
 	for _, mode := range []string{"direct", "server"} {
-		for _, schemes := range cfgLattice.Schemes {
-			for _, reg := range []string{"echo", "assign"} {
-				cfg := SrvCfg{Transport: "tcp-tls", Comp: []string{"none"}, Enc: []string{"tls"}, Schemes: schemes, Auth: standardAuth(schemes), Register: reg, Mode: mode}
+		for si, schemes := range cfgLattice.Schemes {
+			for ri, reg := range []string{"echo", "assign"} {
+				// the three ways a TLS configuration can supply its certificate, spread over the configurations
+				via := []string{"", "getcertificate", "getconfig"}[(si+ri)%3]
+				cfg := SrvCfg{Transport: "tcp-tls", Comp: []string{"none"}, Enc: []string{"tls"}, Schemes: schemes, Auth: standardAuth(schemes), Register: reg, Mode: mode, TLSVia: via}
 				alpha := srvAlphabet(&cfg, false)
 				// both branches: a client that expects negotiation and one that skips it
 				for _, neg := range []bool{true, false} {
@@ -115,7 +117,7 @@ func TestC10Pair(t *testing.T) {
 							cr = ""
 						}
 						c := &PairCase{Srv: SrvCfg{Transport: "tcp-tls", Comp: []string{"none"}, Enc: []string{"tls"}, Schemes: schemes,
-							Auth: standardAuth(schemes), Register: []string{"echo", "assign"}[si%2]},
+							Auth: standardAuth(schemes), Register: []string{"echo", "assign"}[si%2], TLSVia: []string{"", "getcertificate", "getconfig"}[(si+len(cred))%3]},
 							CliEnc: cliEnc, CliComp: "first", CliScheme: sch, CliCred: cr, CliTLS: cliTLS}
 						o := &Outcome{NonTrivial: true}
 						o.Class("client-selector=" + cliEnc)
